@@ -397,7 +397,7 @@ def run(tier, seed, t0):
                      'representations (iteration orders / deque splits); every value is serialized in >= 6 ways',
              'traces_validated_against_impl': acc.evals}
     disagreements += acc.disagreements
-    if acc.values and (stats['representations_per_value']['min'] < 6 or stats['distinct_nontrivial'] < 200):
+    if not acc.values or stats['representations_per_value']['min'] < 6 or stats['distinct_nontrivial'] < 200:
         disagreements.append({'what': 'generator floor missed: min representations %s, values seen in >= 2 representations %s'
                                       % (stats['representations_per_value']['min'], stats['distinct_nontrivial'])})
 
